@@ -403,7 +403,10 @@ def run(ctx):
             if p.item is None:
                 continue
             pe = peel_conv(p.item)
-            is_raw = (pe.k == "arg" and b.locals[pe.a[0]]["ty"] == "&str" and p.body.key == fk) or \
+            cv_ = builders.creator_value(prog, p)
+            if cv_ is not None and cv_[0].k == "arg" and cv_[1].key == fk and b.locals[cv_[0].a[0]]["ty"] == "&str":
+                pe = cv_[0]             # built inside a closure of the builder from the captured text parameter
+            is_raw = (pe.k == "arg" and b.locals[pe.a[0]]["ty"] == "&str" and (p.body.key == fk or cv_ is not None)) or \
                      (self_path(pe) is not None and self_path(pe)[:1] and any(self_path(pe)[0] in roles[t]["raw"] and roles[t]["buffer"] not in roles[t]["raw"] for t in roles))
             if not is_raw:
                 continue
@@ -411,7 +414,7 @@ def run(ctx):
             through = any(x.k == "call" and (x.a[0] == q or x.a[0] in acc) for x in p.item.walk())
             if through:
                 r3.violation("%s:raw#%s" % (short, p.variant), "a raw typed-text candidate is built from the (curled) split value", site_of(b, p.bb))
-            elif p.kind != "push":
+            elif p.kind == "push_checked":
                 r3.violation("%s:raw#%s" % (short, p.variant), "the raw typed-text candidate is added through the duplicate-dropping helper: whether it equals the "
                              "candidate before it depends on that candidate being curled or not, so the lists with the option on and off differ in length "
                              "(a word the conversion leaves unchanged: one entry with the option off, two with it on)", site_of(b, p.bb))
